@@ -12,6 +12,8 @@ LEVEL_NOTE = "Trusts the pyvc encoding (cross-checked by recording stubs nativel
 TECHNIQUE = "contract-based deductive verification with ghost protocol automata (VCs from the ast of the real functions, z3/cvc5)"
 UNITS = [ST.unit_field_class_structure(), F.unit_validated(), VIO.unit_validate_row(), VIO.unit_reader_rows(), VIO.unit_close(), VIO.unit_module_rows_validate(), VIO.unit_writer_init(), VIO.unit_writer_write_row(), IF.unit_create_class_and_check_row(), IF.unit_add_check_row(), IF.unit_add_check(), IF.unit_add_field_format_row(), PR.unit_protocol_sweep()]
 UNITS += [ST.unit_no_hidden_state(), IF.unit_cid_init(), IF.unit_create_name_to_class_map()]
+from contracts import checks as CK
+UNITS += [CK.unit_abstract_check_defaults()]
 UNITS += [VIO.unit_reset_checks()]
 from contracts import rowio_writers as RW
 UNITS += [RW.unit_fixed_row_writer_write_row().also("C20"), RW.unit_delimited_row_writer_write_row().also("C20")]
